@@ -28,17 +28,24 @@ ASSUMPTIONS = [
 
 def cases(rng, tier):
     base = S.gen_cases(rng, tier, 90 if tier == "quick" else 1200) + S.default_cases(random.Random(str(rng.getstate()[1][0])), tier, 150 if tier == "quick" else 2500) + S.crosstype_cases() \
-        + X.directed_ctor_cases() + X.decimal_cases()
+        + X.directed_ctor_cases() + X.decimal_cases() + X.temporal_cases()
     ext = S.gen_cases(random.Random("ext" + str(rng.getstate()[1][0])), tier, 70 if tier == "quick" else 1000, ext=True, prefix="E") + S.xstring_cases()
-    return base + ext
+    # arguments that are the library's own typed wrappers, read from a laxly declared field of another instance
+    tp = S.transplant_cases(random.Random("tp" + str(rng.getstate()[1][0])), tier, 60 if tier == "quick" else 800)
+    return base + ext + tp
 
 
 def search_cases(rng, tier):
-    return S.gen_cases(rng, "thorough", 400) + S.gen_cases(random.Random("ext-s" + str(rng.getstate()[1][0])), "thorough", 200, ext=True, prefix="E")
+    return S.gen_cases(rng, "thorough", 400) + S.gen_cases(random.Random("ext-s" + str(rng.getstate()[1][0])), "thorough", 200, ext=True, prefix="E") \
+        + S.transplant_cases(random.Random("tp-s" + str(rng.getstate()[1][0])), "thorough", 150)
 
 
 def _x(case):
-    return case.get("suite") in ("extras-ctor", "extras-decimal")
+    return case.get("suite") in ("extras-ctor", "extras-decimal", "extras-temporal")
+
+
+def _tmp(case):
+    return case.get("suite") == "extras-temporal"
 
 
 def _dec(case):
@@ -46,6 +53,8 @@ def _dec(case):
 
 
 def run_impl(case):
+    if _tmp(case):
+        return X.run_temporal(case)
     if _dec(case):
         return X.run_decimal(case)
     return X.run_ctor(case) if _x(case) else S.run_impl(case)
@@ -56,6 +65,8 @@ def line(case, impl):
 
 
 def tags(case, impl, model):
+    if _tmp(case):
+        return ["stream:extras-temporal", f"temporal:{case['leaf']}:{impl.get('out', 'skipped')}"]
     if _dec(case):
         return ["stream:extras-decimal"] + [f"decimal:{p['probe']}:{p['ctor']}" for p in impl.get("probes", [])]
     if _x(case):
@@ -68,12 +79,16 @@ def nontrivial(case):
 
 
 def describe(case, impl, model):
+    if _tmp(case):
+        return {"temporal": case, "result": impl}
     if _dec(case):
         return {"decimal": case, "probes": impl.get("probes")}
     return {"extras": [case["leaf"], case["wrap"]], "value": impl.get("value"), "out": impl.get("out"), "exc": impl.get("exc")} if _x(case) else S.describe(case, impl, model)
 
 
 def judge(case, impl, model):
+    if _tmp(case):
+        return None, X.judge_temporal(case, impl)
     if _dec(case):
         return None, ([] if "skip" in impl else X.judge_decimal_ctor(case, impl))
     if _x(case):
